@@ -92,7 +92,13 @@ func (c *SeqCheck) Run(e *Env) (*Outcome, *Evidence, error) {
 	gens = append(gens, c.GenMore...)
 	for gi, gen := range gens {
 		tag := fmt.Sprintf("e1%c", 'a'+gi)
-		g, err := e.runTLC("gen"+tag, "MC_Seq", gen.cfg(tlaSet(loadAsIsDev()), "states", nil, nil), 12, 30*time.Minute)
+		emitMode := "states"
+		if gi > 0 {
+			// small families: the alphabet is executed from the deepest states too (which
+			// witness TLC keeps for a state depends on worker scheduling)
+			emitMode = "allstates"
+		}
+		g, err := e.runTLC("gen"+tag, "MC_Seq", gen.cfg(tlaSet(loadAsIsDev()), emitMode, nil, nil), 12, 30*time.Minute)
 		if err != nil {
 			return nil, nil, err
 		}
